@@ -64,3 +64,11 @@ CORPUS += [
     Mut('c06-benign-date-test-written-the-other-way-round', 'torchtree/evolution/tree_model.py', 'TimeTreeModel.update_leaf_heights', 'if min(dates) == 0.0:…',
         "if min(dates) != 0.0:\n    for idx, taxon in enumerate(self._taxa):\n        leaf_heights[idx] = max_date - taxon['date']\nelse:\n    for idx, taxon in enumerate(self._taxa):\n        leaf_heights[idx] = taxon['date']", benign=True),
 ]
+CORPUS += [
+    Mut('c06-inverse-of-the-difference-transform-for-the-hard-maximum-only', 'torchtree/evolution/tree_height_transform.py', 'DifferenceNodeHeightTransform._inverse', 'if self.k > 0:…',
+        "for node, left, right in self.tree.postorder:\n    x[node - self.taxa_count] = heights[node] - torch.max(heights[left], heights[right])",
+        expect=[('C06.S', 'DifferenceNodeHeightTransform._inverse::distinguishes-the-regimes-of-the-forward-map')]),
+    Mut('c06-internal-heights-refreshed-apart-from-the-node-heights', 'torchtree/evolution/tree_model.py', 'ReparameterizedTimeTreeModel._call', 'if self.heights_need_update:…',
+        "if self.heights_need_update:\n    self._heights = self.transform(self._internal_heights.tensor)\n    self.heights_need_update = False",
+        expect=[('C06.H', 'flags::')]),
+]
